@@ -155,6 +155,11 @@ async fn spawned(h: usize, inc: u64, tpat: Vec<u64>, tout: String) -> Result<(),
 
 async fn software(h: usize, inc: u64, sc: Script) -> turmoil::Result {
     tokio::task::spawn_local(heartbeat(h, inc));
+    if sc.tout == "Panic" {
+        // announce the panic the spawned task is scripted to raise (whole-millisecond timers from now)
+        let now = whole_ms(turmoil::sim_elapsed().expect("sim_elapsed"));
+        rec::emit(json!({"ev":"will_panic","h":h,"at": now + sc.tpat.iter().sum::<u64>() as i64}));
+    }
     if sc.tout != "none" {
         // alternate between the LocalSet and the runtime's own task queue
         if h % 2 == 0 {
@@ -336,7 +341,7 @@ fn postprocess(raw: Vec<Value>) -> Vec<Value> {
                     out.push(json!({"ev":"step","n":n.trim().parse::<u64>().unwrap_or(0)}));
                 }
             }
-            "hb" | "sample" | "fin" | "panic" => {
+            "hb" | "sample" | "fin" | "panic" | "will_panic" => {
                 let h = e["h"].as_u64().unwrap();
                 if in_step && h != cur {
                     close_turn(&mut out, &mut cur, false);
@@ -537,6 +542,7 @@ fn main_replay(args: &[String]) {
     let mut nontrivial = 0u64;
     let mut ndiv = 0u64;
     let mut divs: Vec<Value> = Vec::new();
+    let mut kinds: BTreeMap<String, u32> = BTreeMap::new();
     let mut samples: Vec<Value> = Vec::new();
     let mut all: Vec<Value> = Vec::new();
     rec::with_recorder(|| {
@@ -565,7 +571,11 @@ fn main_replay(args: &[String]) {
             }
             if let Some(mut d) = r.divergence {
                 ndiv += 1;
-                if divs.len() < 20 {
+                // keep a few divergences of every kind (expected / observed), not just the first ones
+                let key = format!("{}/{}/{}/{}", d["want"]["ev"], d["want"]["res"], d["got"]["ev"], d["got"]["res"]);
+                let seen = kinds.entry(key).or_insert(0u32);
+                *seen += 1;
+                if *seen <= 4 && divs.len() < 48 {
                     d["line"] = json!(k);
                     d["behaviour"] = json!(beh);
                     if let Some(dir) = &traces {
@@ -1118,12 +1128,14 @@ mod c04 {
         pub cap: usize,
         pub lis: usize,
         pub v6: bool,
+        pub eph: u64, // size of the ephemeral port range, 0 = default
     }
 
     pub struct CRun<'a> {
         pub sim: turmoil::Sim<'a>,
         pub shared: Rc<RefCell<Shared>>,
         notifies: Vec<Rc<Notify>>,
+        pub dead: bool, // a step panicked: the scenario is over
     }
 
     fn vec2(v: &[u64]) -> Vec<u64> {
@@ -1140,6 +1152,9 @@ mod c04 {
         pub fn new(cfg: &CCfg) -> CRun<'a> {
             let mut b = turmoil::Builder::new();
             V6.with(|v| v.set(cfg.v6));
+            if cfg.eph > 0 {
+                b.ephemeral_ports(EPH0..=EPH0 + (cfg.eph as u16 - 1));
+            }
             if cfg.v6 {
                 b.ip_version(turmoil::IpVersion::V6);
             }
@@ -1176,7 +1191,7 @@ mod c04 {
             }
             rec::take();
             rec::emit(json!({"ev":"reset","tick":cfg.tick,"lat":cfg.lat_steps,"cap":cfg.cap,"lis":cfg.lis,"ip": if cfg.v6 { 6 } else { 4 }}));
-            CRun { sim, shared, notifies }
+            CRun { sim, shared, notifies, dead: false }
         }
 
         pub fn step(&mut self, per_host: Vec<Vec<Cmd>>) {
@@ -1191,16 +1206,41 @@ mod c04 {
             }
             rec::emit(json!({"ev":"step"}));
             let sim = &mut self.sim;
-            let r = util::catch(|| sim.step());
+            // like util::catch, but every panic message raised on the way is kept: a panic inside host
+            // code surfaces from Sim::step as the runtime's generic "a spawned task panicked ..." message
+            thread_local! {
+                static PANICS: RefCell<Vec<String>> = const { RefCell::new(Vec::new()) };
+            }
+            PANICS.with(|p| p.borrow_mut().clear());
+            let prev = std::panic::take_hook();
+            std::panic::set_hook(Box::new(|info| {
+                let msg = info
+                    .payload()
+                    .downcast_ref::<&str>()
+                    .map(|s| s.to_string())
+                    .or_else(|| info.payload().downcast_ref::<String>().cloned())
+                    .unwrap_or_else(|| "panic".to_string());
+                PANICS.with(|p| p.borrow_mut().push(msg));
+            }));
+            let r = std::panic::catch_unwind(std::panic::AssertUnwindSafe(|| sim.step()));
+            std::panic::set_hook(prev);
             let ok = match &r {
                 Ok(Ok(_)) => "ok".to_string(),
                 Ok(Err(e)) => format!("err {e}"),
-                Err(p) => format!("panic {p}"),
+                Err(_) => format!("panic {}", PANICS.with(|p| p.borrow().join(" | "))),
             };
             if ok != "ok" {
                 TWINLOG.with(|l| l.borrow_mut().push(format!("step failed: {ok}")));
+                self.dead = true;
             }
-            rec::emit(json!({"ev":"step_end","polls":polls2(),"sent":sent2(),"ok":ok}));
+            let okc = if ok == "ok" {
+                "ok"
+            } else if ok.contains("ports exhausted") {
+                "ports"
+            } else {
+                "other"
+            };
+            rec::emit(json!({"ev":"step_end","polls":polls2(),"sent":sent2(),"ok":ok,"okc":okc}));
         }
 
         /// Sim::set_link_latency on the link of the protocol pair (v steps)
@@ -1411,7 +1451,7 @@ mod c04 {
         let mut run = CRun::new(cfg);
         let mut i = 0;
         let mut faults = false;
-        while i < beh.len() {
+        while i < beh.len() && !run.dead {
             let a = &beh[i];
             match a["a"].as_str().unwrap() {
                 "crash" | "bounce" => {
@@ -1512,6 +1552,7 @@ mod c04 {
             cap: util::arg_u64(args, "cap", 1) as usize,
             lis: util::arg_u64(args, "lis", 1) as usize,
             v6: util::arg_u64(args, "ip", 4) == 6,
+            eph: util::arg_u64(args, "eph", 0),
         }
     }
 
@@ -1527,6 +1568,7 @@ mod c04 {
         let mut nontrivial = 0u64;
         let mut ndiv = 0u64;
         let mut divs: Vec<Value> = Vec::new();
+        let mut kinds: BTreeMap<String, u32> = BTreeMap::new();
         let mut samples: Vec<Value> = Vec::new();
         let mut all: Vec<Value> = Vec::new();
         rec::with_recorder(|| {
@@ -1555,7 +1597,11 @@ mod c04 {
                 }
                 if let Some(mut d) = r.divergence {
                     ndiv += 1;
-                    if divs.len() < 20 {
+                    // keep a few divergences of every kind (expected / observed), not just the first ones
+                    let key = format!("{}/{}/{}/{}", d["want"]["ev"], d["want"]["res"], d["got"]["ev"], d["got"]["res"]);
+                    let seen = kinds.entry(key).or_insert(0u32);
+                    *seen += 1;
+                    if *seen <= 4 && divs.len() < 48 {
                         d["line"] = json!(k);
                         d["behaviour"] = json!(beh);
                         if let Some(dir) = &traces {
@@ -1624,6 +1670,9 @@ mod c04 {
                 m[1].up = true;
                 m[2].up = true;
                 for _s in 0..steps {
+                    if run.dead {
+                        break;
+                    }
                     if rng.random_bool(0.22) {
                         let both = rng.random_bool(0.2);
                         let kind = if rng.random_bool(0.5) { "crash" } else { "bounce" };
